@@ -90,7 +90,7 @@ impl Property for C03 {
     }
     fn runs(&self, tier: Tier) -> usize {
         match tier {
-            Tier::Quick => 12_000,
+            Tier::Quick => 30_000,
             Tier::Thorough => 1_500_000,
         }
     }
